@@ -7,30 +7,36 @@ From OfxV Require Import Base.Prelude Base.Digits Gen.ScalarsGen Model.PyDecimal
 Local Open Scope N_scope.
 Theorem T_limits_strict : forall e,
   (forall n strict s, elem_sty e = TString (Some n) strict ->
-     (tlen s <= n -> unconvert e (PStr s) = OK (Some s, false)) /     (n < tlen s -> (strict = true -> unconvert e (PStr s) = Err Reject) /\ (strict = false -> unconvert e (PStr s) = OK (Some s, true))) /     (s <> [] -> string_unescape s = s ->
-        (tlen s <= n -> convert e (PStr s) = OK (PStr s, false)) /        (n < tlen s -> (strict = true -> convert e (PStr s) = Err Reject) /\ (strict = false -> convert e (PStr s) = OK (PStr s, true))))) /  (forall n z, elem_sty e = TInteger (Some n) ->
+     (tlen s <= n -> unconvert e (PStr s) = OK (Some s, false)) /\
+     (n < tlen s -> (strict = true -> unconvert e (PStr s) = Err Reject) /\ (strict = false -> unconvert e (PStr s) = OK (Some s, true))) /\
+     (s <> [] -> string_unescape s = s ->
+        (tlen s <= n -> convert e (PStr s) = OK (PStr s, false)) /\
+        (n < tlen s -> (strict = true -> convert e (PStr s) = Err Reject) /\ (strict = false -> convert e (PStr s) = OK (PStr s, true))))) /\
+  (forall n z, elem_sty e = TInteger (Some n) ->
      ((Z.abs z < Z.of_N (10 ^ n))%Z ->
-        convert e (PInt z) = OK (PInt z, false) /        ((List.length (dec_of_N (Z.abs_N z)) <= MAX_STR_DIGITS)%nat ->
-           unconvert e (PInt z) = OK (Some (Z_text z), false) /\ convert e (PStr (Z_text z)) = OK (PInt z, false))) /     ((Z.of_N (10 ^ n) <= Z.abs z)%Z ->
-        convert e (PInt z) = Err Reject /\ unconvert e (PInt z) = Err Reject /        ((List.length (dec_of_N (Z.abs_N z)) <= MAX_STR_DIGITS)%nat -> convert e (PStr (Z_text z)) = Err Reject))) /  (forall n, elem_sty e = TDecimal (Some n) ->
-     (forall neg c ex, ex <> quantum_exp n -> unconvert e (PDec (Fin neg c ex)) = Err Reject) /     (forall x d w, convert e x = OK (PDec d, w) -> exists neg c, d = Fin neg c (quantum_exp n) /\ (c = 0 \/ (ndigits c <= PREC)%Z))) /  (forall sc d, elem_sty e = TDecimal sc -> is_finite d = false -> unconvert e (PDec d) = Err Reject /\ convert e (PDec d) = Err Reject).
+        convert e (PInt z) = OK (PInt z, false) /\
+        ((List.length (dec_of_N (Z.abs_N z)) <= MAX_STR_DIGITS)%nat ->
+           unconvert e (PInt z) = OK (Some (Z_text z), false) /\ convert e (PStr (Z_text z)) = OK (PInt z, false))) /\
+     ((Z.of_N (10 ^ n) <= Z.abs z)%Z ->
+        convert e (PInt z) = Err Reject /\ unconvert e (PInt z) = Err Reject /\
+        ((List.length (dec_of_N (Z.abs_N z)) <= MAX_STR_DIGITS)%nat -> convert e (PStr (Z_text z)) = Err Reject))) /\
+  (forall n, elem_sty e = TDecimal (Some n) ->
+     (forall neg c ex, ex <> quantum_exp n -> unconvert e (PDec (Fin neg c ex)) = Err Reject) /\
+     (forall x d w, convert e x = OK (PDec d, w) -> exists neg c, d = Fin neg c (quantum_exp n) /\ (c = 0 \/ (ndigits c <= PREC)%Z))) /\
+  (forall sc d, elem_sty e = TDecimal sc -> is_finite d = false -> unconvert e (PDec d) = Err Reject /\ convert e (PDec d) = Err Reject).
 Proof.
-  intro e. repeat split.
-  - rewrite unconvert_elem, H. apply string_limits.
-  - intros ->. rewrite unconvert_elem, H. apply string_limits. exact H0.
-  - intros ->. rewrite unconvert_elem, H. apply string_limits. exact H0.
-  - rewrite convert_elem, H. apply string_limits; assumption.
-  - intros ->. rewrite convert_elem, H. apply string_limits; assumption.
-  - intros ->. rewrite convert_elem, H. apply string_limits; assumption.
-  - rewrite convert_elem, H. apply integer_limits. exact H0.
-  - rewrite unconvert_elem, H. apply integer_limits; assumption.
-  - rewrite convert_elem, H. apply integer_limits; assumption.
-  - rewrite convert_elem, H. apply integer_limits. exact H0.
-  - rewrite unconvert_elem, H. apply integer_limits. exact H0.
-  - rewrite convert_elem, H. apply integer_limits; assumption.
-  - intros neg c ex Hx. rewrite unconvert_elem, H. apply decimal_limits. exact Hx.
-  - intros x d w. rewrite convert_elem, H. apply decimal_limits.
-  - rewrite unconvert_elem, H. apply (decimal_limits 0). exact H0.
-  - rewrite convert_elem, H. apply (decimal_limits 0). exact H0.
+  intro e. split; [|split; [|split]].
+  - intros n strict s H. rewrite !convert_elem, !unconvert_elem, H.
+    destruct (string_limits n strict (elem_required e) s) as (A & B & C).
+    split; [exact A|]. split.
+    + intro Hlt. destruct (B Hlt) as [B1 B2]. split; intros ->; assumption.
+    + intros Hne Hfree. destruct (C Hne Hfree) as [C1 C2]. split; [exact C1|]. intro Hlt. destruct (C2 Hlt) as [C3 C4]. split; intros ->; assumption.
+  - intros n z H. rewrite !convert_elem, !unconvert_elem, H. destruct (integer_limits n (elem_required e) z) as [A B]. split.
+    + intro Hlt. destruct (A Hlt) as (A1 & A2 & A3). split; [exact A1|exact A3].
+    + exact B.
+  - intros n H. destruct (decimal_limits n (elem_required e)) as (A & B & _). split.
+    + intros neg c ex Hx. rewrite unconvert_elem, H. exact (A neg c ex Hx).
+    + intros x d w. rewrite convert_elem, H. exact (B x d w).
+  - intros sc d H Hf. rewrite convert_elem, unconvert_elem, H. destruct (decimal_limits 0 (elem_required e)) as (_ & _ & C). exact (C d Hf sc).
 Qed.
 Print Assumptions T_limits_strict.
